@@ -233,6 +233,7 @@ inductive Err
   | syntaxErr      -- bash: syntax error in expression
   | recursion      -- bash: expression recursion level exceeded
   | outOfDomain    -- signed overflow or shift count outside 0..63: outside the property's domain
+  | fuel           -- the specification's evaluator ran out of its structural fuel (no bash meaning)
   deriving DecidableEq, Repr
 
 inductive Res
@@ -594,5 +595,272 @@ def printArith : Expr → List Tok
     match op.sym with
     | some s => printArith x ++ [.sym s] ++ printArith y
     | none => printArith x ++ printArith y
+
+/-! ## Specification `BashArith`: bash's arithmetic on mathematical integers
+
+  C-like big-step semantics over an environment, left-to-right side effects, variables whose
+  values are expression text are evaluated recursively (bash `expr_streval`), numeric constants by
+  bash's `strlong` rules.  Results that leave the signed 64-bit range and shift counts outside
+  0..63 are reported as `outOfDomain` (the property excludes them).  `depth` is bash's
+  `MAX_EXPR_RECURSION_LEVEL` budget for value-text recursion; `fuel` only bounds the structural
+  recursion of this definition. -/
+
+/-- bash digit alphabet: 0-9, a-z, A-Z (same as a-z for bases ≤ 36, 36..61 above), `@`=62, `_`=63. -/
+def specDigit (base : Nat) (c : UInt8) : Option Nat :=
+  if 48 ≤ c ∧ c ≤ 57 then some (c.toNat - 48)
+  else if 97 ≤ c ∧ c ≤ 122 then some (c.toNat - 97 + 10)
+  else if 65 ≤ c ∧ c ≤ 90 then some (c.toNat - 65 + (if base ≤ 36 then 10 else 36))
+  else if c = 64 then some 62
+  else if c = 95 then some 63
+  else none
+
+/-- Positional value; `none`: "value too great for base" / not a digit. -/
+def specDigits (base : Nat) : Nat → Bytes → Option Nat
+  | acc, [] => some acc
+  | acc, c :: cs =>
+    match specDigit base c with
+    | some d => if d < base then specDigits base (acc * base + d) cs else none
+    | none => none
+
+/-- Value of a numeric constant: decimal, `0`octal, `0x`hex, `base#digits` with 2 ≤ base ≤ 64. -/
+def specNumber (w : Bytes) : Option Nat :=
+  match w with
+  | [] => none
+  | 48 :: 120 :: ds => specDigits 16 0 ds
+  | 48 :: 88 :: ds => specDigits 16 0 ds
+  | 48 :: ds => specDigits 8 0 ds
+  | _ =>
+    match cutHash w with
+    | some (b, ds) =>
+      match specDigits 10 0 b with
+      | some base => if 2 ≤ base ∧ base ≤ 64 ∧ ds ≠ [] then specDigits base 0 ds else none
+      | none => none
+    | none => specDigits 10 0 w
+
+/-- Tokeniser for the text of a variable value (blanks, words, longest-match operators). -/
+def isBlankB (b : UInt8) : Bool := b == 32 || b == 9 || b == 10
+def isWordB (b : UInt8) : Bool := isNameChar b || b == 64 || b == 35
+
+def lexSym : Bytes → Option (Sym × Bytes)
+  | 60 :: 60 :: 61 :: r => some (.shlAssgn, r)
+  | 62 :: 62 :: 61 :: r => some (.shrAssgn, r)
+  | 42 :: 42 :: r => some (.power, r)
+  | 60 :: 60 :: r => some (.shl, r)
+  | 62 :: 62 :: r => some (.shr, r)
+  | 60 :: 61 :: r => some (.leq, r)
+  | 62 :: 61 :: r => some (.geq, r)
+  | 61 :: 61 :: r => some (.equal, r)
+  | 33 :: 61 :: r => some (.nequal, r)
+  | 38 :: 38 :: r => some (.andAnd, r)
+  | 124 :: 124 :: r => some (.orOr, r)
+  | 43 :: 43 :: r => some (.addAdd, r)
+  | 45 :: 45 :: r => some (.subSub, r)
+  | 43 :: 61 :: r => some (.addAssgn, r)
+  | 45 :: 61 :: r => some (.subAssgn, r)
+  | 42 :: 61 :: r => some (.mulAssgn, r)
+  | 47 :: 61 :: r => some (.quoAssgn, r)
+  | 37 :: 61 :: r => some (.remAssgn, r)
+  | 38 :: 61 :: r => some (.andAssgn, r)
+  | 124 :: 61 :: r => some (.orAssgn, r)
+  | 94 :: 61 :: r => some (.xorAssgn, r)
+  | 43 :: r => some (.plus, r)
+  | 45 :: r => some (.minus, r)
+  | 42 :: r => some (.star, r)
+  | 47 :: r => some (.slash, r)
+  | 37 :: r => some (.perc, r)
+  | 60 :: r => some (.lss, r)
+  | 62 :: r => some (.gtr, r)
+  | 38 :: r => some (.and, r)
+  | 124 :: r => some (.or, r)
+  | 94 :: r => some (.caret, r)
+  | 44 :: r => some (.comma, r)
+  | 63 :: r => some (.quest, r)
+  | 58 :: r => some (.colon, r)
+  | 61 :: r => some (.assgn, r)
+  | 33 :: r => some (.exclMark, r)
+  | 126 :: r => some (.tilde, r)
+  | _ => none
+
+def lexArith : Nat → Bytes → Option (List Tok)
+  | 0, _ => none
+  | _ + 1, [] => some []
+  | fuel + 1, b :: rest =>
+    if isBlankB b then lexArith fuel rest
+    else if b = 40 then (lexArith fuel rest).map (Tok.lparen :: ·)
+    else if b = 41 then (lexArith fuel rest).map (Tok.rparen :: ·)
+    else if isWordB b ∧ b ≠ 35 then
+      (lexArith fuel (rest.dropWhile isWordB)).map (Tok.word (b :: rest.takeWhile isWordB) :: ·)
+    else
+      match lexSym (b :: rest) with
+      | some (s, r) => (lexArith fuel r).map (Tok.sym s :: ·)
+      | none => none
+
+/-- Text of a variable value as an expression: `some none` for a blank text (value 0). -/
+def parseText (v : Bytes) : Option (Option Expr) :=
+  match lexArith (v.length + 1) v with
+  | none => none
+  | some [] => some none
+  | some toks => (parseArith toks).map some
+
+def chk (v : Int) : Res := if inI64 v then .ok v else .err .outOfDomain
+
+/-- `x ** y` for `y ≥ 0` (exponents ≥ 64 leave the range unless the base is 0, 1 or -1). -/
+def specPow (x y : Int) : Res :=
+  if y < 64 then chk (x ^ y.toNat)
+  else if x = 0 then .ok 0
+  else if x = 1 then .ok 1
+  else if x = -1 then .ok (if y % 2 = 0 then 1 else -1)
+  else .err .outOfDomain
+
+/-- Binary operators on mathematical integers. -/
+def specBin (op : BinOp) (x y : Int) : Res :=
+  match op with
+  | .add => chk (x + y)
+  | .sub => chk (x - y)
+  | .mul => chk (x * y)
+  | .quo => if y = 0 then .err .divZero else chk (Int.tdiv x y)
+  | .rem => if y = 0 then .err .divZero else .ok (Int.tmod x y)
+  | .pow => if y < 0 then .err .negExp else specPow x y
+  | .eql => .ok (oneIf (x == y))
+  | .neq => .ok (oneIf (x != y))
+  | .lss => .ok (oneIf (decide (x < y)))
+  | .gtr => .ok (oneIf (decide (x > y)))
+  | .leq => .ok (oneIf (decide (x ≤ y)))
+  | .geq => .ok (oneIf (decide (x ≥ y)))
+  | .and => .ok (and64 x y)
+  | .or => .ok (or64 x y)
+  | .xor => .ok (xor64 x y)
+  | .shl => if 0 ≤ y ∧ y < 64 then chk (x * (2 : Int) ^ y.toNat) else .err .outOfDomain
+  | .shr => if 0 ≤ y ∧ y < 64 then .ok (x / (2 : Int) ^ y.toNat) else .err .outOfDomain
+  | .comma => .ok y
+  | _ => .err .syntaxErr
+
+/-- Assignment stores the decimal text of the value. -/
+def specSet (env : Env) (n : Bytes) (v : Int) : Res × Env :=
+  match env.set n (fmtInt v) with
+  | none => (.err .readOnly, env)
+  | some env' => (.ok v, env')
+
+def specEval : Nat → Nat → Env → Expr → Res × Env
+  | 0, _, env, _ => (.err .fuel, env)
+  | fuel + 1, depth, env, e =>
+    match e with
+    | .word w =>
+      if validName w then
+        let v := env.get w
+        if v = [] then (.ok 0, env)
+        else match parseText v with
+          | none => (.err .syntaxErr, env)
+          | some none => (.ok 0, env)
+          | some (some e') =>
+            match depth with
+            | 0 => (.err .recursion, env)
+            | depth' + 1 => specEval fuel depth' env e'
+      else match specNumber w with
+        | some n => (chk (Int.ofNat n), env)
+        | none => (.err .badNumber, env)
+    | .paren x => specEval fuel depth env x
+    | .unary op post x =>
+      if op = .inc ∨ op = .dec then
+        match x with
+        | .word n =>
+          if validName n then
+            match specEval fuel depth env (.word n) with
+            | (.ok old, env1) =>
+              let val := if op = .inc then old + 1 else old - 1
+              if inI64 val then
+                match specSet env1 n val with
+                | (.ok _, env2) => (.ok (if post then old else val), env2)
+                | r => r
+              else (.err .outOfDomain, env1)
+            | r => r
+          else (.err .syntaxErr, env)
+        | _ => (.err .syntaxErr, env)
+      else if post then (.err .syntaxErr, env)
+      else
+        match specEval fuel depth env x with
+        | (.ok v, env1) =>
+          match op with
+          | .not => (.ok (oneIf (v == 0)), env1)
+          | .bitNeg => (.ok (-v - 1), env1)
+          | .plus => (.ok v, env1)
+          | _ => (chk (-v), env1)
+        | r => r
+    | .binary op x y =>
+      if isAssign op then
+        match x with
+        | .word n =>
+          if validName n then
+            match assignOp op with
+            | none =>
+              if op = .assgn then
+                match specEval fuel depth env y with
+                | (.ok v, env1) => specSet env1 n v
+                | r => r
+              else (.err .syntaxErr, env)
+            | some aop =>
+              match specEval fuel depth env (.word n) with
+              | (.ok cur, env1) =>
+                match specEval fuel depth env1 y with
+                | (.ok arg, env2) =>
+                  match specBin aop cur arg with
+                  | .ok v => specSet env2 n v
+                  | r => (r, env2)
+                | r => r
+              | r => r
+          else (.err .syntaxErr, env)
+        | _ => (.err .syntaxErr, env)
+      else if op = .ternQuest then
+        match y with
+        | .binary .ternColon t f =>
+          match specEval fuel depth env x with
+          | (.ok c, env1) => if c ≠ 0 then specEval fuel depth env1 t else specEval fuel depth env1 f
+          | r => r
+        | _ => (.err .syntaxErr, env)
+      else if op = .andL ∨ op = .orL then
+        match specEval fuel depth env x with
+        | (.ok l, env1) =>
+          if op = .andL ∧ l = 0 then (.ok 0, env1)
+          else if op = .orL ∧ l ≠ 0 then (.ok 1, env1)
+          else
+            match specEval fuel depth env1 y with
+            | (.ok r, env2) => (.ok (oneIf (r != 0)), env2)
+            | r => r
+        | r => r
+      else
+        match specEval fuel depth env x with
+        | (.ok l, env1) =>
+          match specEval fuel depth env1 y with
+          | (.ok r, env2) => (specBin op l r, env2)
+          | r => r
+        | r => r
+
+/-- bash's nesting limit for expressions reached through variable values. -/
+def bashMaxDepth : Nat := 1024
+
+/-- Status rules of bash: `(( e ))` and `let e…` return 0 iff the (last) value is non-zero, 1 on
+    any error (evaluation stops at the first error); a command containing `$(( e ))` is not run
+    and the status is 1 when the expansion fails. -/
+def specArithCmdStatus (fuel : Nat) (env : Env) (e : Expr) : Nat × Env :=
+  match specEval fuel bashMaxDepth env e with
+  | (.ok v, env') => (if v = 0 then 1 else 0, env')
+  | (_, env') => (1, env')
+
+def specLetLoop (fuel : Nat) (env : Env) (val : Int) : List Expr → Option Int × Env
+  | [] => (some val, env)
+  | e :: rest =>
+    match specEval fuel bashMaxDepth env e with
+    | (.ok v, env') => specLetLoop fuel env' v rest
+    | (_, env') => (none, env')
+
+def specLetStatus (fuel : Nat) (env : Env) (es : List Expr) : Nat × Env :=
+  match specLetLoop fuel env 0 es with
+  | (some v, env') => (if v = 0 then 1 else 0, env')
+  | (none, env') => (1, env')
+
+def specExpansionStatus (fuel : Nat) (env : Env) (e : Expr) : Nat × Env :=
+  match specEval fuel bashMaxDepth env e with
+  | (.ok _, env') => (0, env')
+  | (_, env') => (1, env')
 
 end ShVerif.C20
